@@ -227,7 +227,7 @@ def shrink(c, e, g):
 
 def run(ctx):
     g = NGen(ctx.rng)
-    n = 3000 if ctx.tier == 'quick' else 80000
+    n = 3000 if ctx.tier == 'quick' else 300000
     cases = [gen_case(ctx, g) for _ in range(n)]
     args, model, exp, got = evaluate(ctx, cases)
     ctx.compare(cases, exp, got, THEOREM, rel=rel, describe=describe, shrink=shrink,
